@@ -9,13 +9,15 @@ contract(M + "BUFFER", props=["C07", "C06", "C19"],
          instances=[{"x": k} for k in OPK + ["model:PUBOMatrix", "model:QUBOMatrix"]],
          requires=["opsvalid((x,))"],
          returns=lambda env, eng: "fresh:model:" + (env["x"].cls.name if hasattr(env["x"], "cls") else "PUBO"),
-         ensures=["bden(result) == opden(x)", "wf(result)", "isfresh(result)"])
+         ensures=["bden(result) == opden(x)", "wf(result)", "isfresh(result)",
+                  "implies(ops_ancbelow((x,), gn()), keys_ancbelow(result, gn()))"])
 
 contract(M + "NOT", props=["C07", "C06", "C19"],
          instances=[{"x": k} for k in OPK],
          requires=["opsvalid((x,))"],
          returns=lambda env, eng: "fresh:model:" + (env["x"].cls.name if hasattr(env["x"], "cls") else "PUBO"),
-         ensures=["bden(result) == 1 - opden(x)", "wf(result)", "isfresh(result)"])
+         ensures=["bden(result) == 1 - opden(x)", "wf(result)", "isfresh(result)",
+                  "implies(ops_ancbelow((x,), gn()), keys_ancbelow(result, gn()))"])
 
 
 def _tuples(maxn):
@@ -36,6 +38,9 @@ def _tuples(maxn):
     return out
 
 
+_AFV = "implies(ops_ancbelow(variables, gn()), keys_ancbelow(result, gn()))"
+
+
 def _restype(env, eng):
     # type of the model operand that ends up on the left of the arithmetic (first operand), PUBO for labels/dicts
     vs = env["variables"]
@@ -53,9 +58,10 @@ for name, f in (("AND", "andf"), ("OR", "orf"), ("XOR", "xorf")):
              instances=_tuples(3) + ([{"variables": "labelkey"}] if name == "AND" else []),
              requires=["opsvalid(variables)", "all01(variables)"],
              returns=_restype,
-             ensures=["bden(result) == %s(variables)" % f, "wf(result)", "isfresh(result)"],
+             ensures=["bden(result) == %s(variables)" % f, "wf(result)", "isfresh(result)", _AFV],
              decreases="len(variables)",
-             loops={1: {"peel": True, "invariant": "bden(P) == andf(visited) and wf(P) and isfresh(P) and typeis(P, 'PUBO')"}}
+             loops={1: {"peel": True, "invariant": "bden(P) == andf(visited) and wf(P) and isfresh(P) and typeis(P, 'PUBO') and "
+                                                   "implies(ops_ancbelow(visited, gn()), keys_ancbelow(P, gn()))"}}
              if name == "AND" else {},
              note="arities 0..3 with mixed operand kinds; the recursive call is used by contract")
 
@@ -64,4 +70,4 @@ for name, f in (("NAND", "andf"), ("NOR", "orf"), ("XNOR", "xorf")):
              instances=_tuples(3),
              requires=["opsvalid(variables)", "all01(variables)"],
              returns=_restype,
-             ensures=["bden(result) == 1 - %s(variables)" % f, "wf(result)", "isfresh(result)"])
+             ensures=["bden(result) == 1 - %s(variables)" % f, "wf(result)", "isfresh(result)", _AFV])
